@@ -25,6 +25,19 @@ add("C24", "rtpbt", "proptest stateful histories vs allocation model + tracking 
     "Random alloc/realloc/free/Cleanup histories against the real rt::cabi_realloc and rt::Cleanup; model of (ptr,size,align,contents); a tracking #[global_allocator] validates the layout of every realloc/dealloc and leak-freedom at the end of each history.",
     "cabi_realloc is reached natively through the verif cfg (hook 2); pointer width 8; System allocator instead of the wasm one; allocation failure is not explored.")
 
+add("C01", "abisim", "proptest over (type, value, P, canon mode) ; recording Bindgen + interpreter vs independent reference canonical ABI",
+    "wit_bindgen_core::abi is run with a recording Bindgen; the recorded instruction stream (with nested blocks) is interpreted over concrete values and a guarded byte memory and compared with an independent reference ABI: lower_to_memory vs spec load (and no stray writes), spec store vs lift_from_memory, lower_flat vs spec flat values bit-for-bit, flat lift through the export glue. 20k generated cases quick (both pointer widths, three canonical-list modes) plus constructed boundary cases (flags at word boundaries, 15/16/17 flats, all payload-type pairs).",
+    "Instruction semantics are those documented on abi::Instruction (implemented in harness/abisim/src/sim.rs); the reference ABI (harness/refabi) is written from the spec digest in DESIGN.md App. D; zero-member flags only checked for no-panic; for P=8 32-bit payloads joined into 64-bit pointer-sized slots are compared modulo upper bits.")
+add("C02", "abisim", "proptest over function signatures (constructed to hit the 16/4/1 flat limits) ; interpreted call glue with mock callee vs reference flattening",
+    "For each generated signature the glue emitted by abi::call is interpreted with a mock core callee / mock implementation for (GuestImport,Lower,sync), (GuestExport,Lift,sync), (GuestExportAsync,Lift,async), (GuestExport,Lift,async), host-side (GuestExport,Lower) and (GuestImport,Lift), and the async-import core signature is compared: canonical core signature, exactly one call / one task.return, arguments and results equal to reference lowering (flat, parameter record, return area), parameter record freed exactly once.",
+    "Resolve::wasm_signature is compared with the reference flattening rather than trusted; inconsistent (variant, async) pairs and the Lower direction of the async variants (documented todo!()) are outside the domain and listed in the evidence rule.")
+add("C03", "abisim", "proptest over (type, value) with an allocation ledger; interpreted cleanup programs vs ledger and handle walk",
+    "Values are lowered by the recorded lowering into a ledgered memory; post_return, deallocate_lists_in_types and deallocate_lists_and_own_in_types (indirect, and direct when <=16 flats) are interpreted; freed multiset must equal the allocated multiset (ptr,size,align), dropped handles must equal the owned handles of the value, guest_export_needs_post_return <=> type contains string/list/map. 40k cases quick incl. a heap-rich generator.",
+    "Same trusted base as C01. Three defects found by this check were fixed in /repo (see known-findings.txt `fixed:` lines) and are kept as regression replays.")
+add("C04", "abisim", "exhaustive enumeration of slot-type pairs produced by real WIT variants + proptest over bit patterns; round-trip and spec-rule oracles",
+    "All ordered pairs of 12 payload shapes (covering every core type incl. pointer, length, pointer-or-i64 at a joined slot) are built as real variants and parsed by wit-parser; for every (case slot, joined slot) pair cast() must exist both ways, produce the destination type, zero-extend/reinterpret on lowering, wrap/reinterpret on lifting and round-trip bit-for-bit on edge+random patterns for P in {4,8}; the same variants run through the full lowering/lifting pipeline against the reference ABI. Random 2..4-case variants extend this.",
+    "Bitcast names carry their documented meaning; 2^32/2^64 domains are sampled (edges + random), not symbolically covered; per-backend cast emitters (Rust/C/...) are NOT executed by this check (Engine D would; not built) — it decides the shared cast table and pipeline only.")
+
 PENDING_REASON = "check not built yet in this session (planned in DESIGN.md §4); not claimed until it exists and passes its sensitivity runs"
 
 def main():
@@ -76,6 +89,7 @@ def main():
 NA = {}
 HOOK_COMMITS = ["b827c12", "a6f2383"]
 ENGINES = [
+    {"name": "abisim", "path": "harness/abisim", "serves_properties": ["C01", "C02", "C03", "C04"], "kind_free_text": "recording wit_bindgen_core::abi::Bindgen + instruction interpreter + independent reference canonical ABI (harness/refabi), driven by proptest"},
     {"name": "rtpbt", "path": "harness/rtpbt", "serves_properties": ["C24"], "kind_free_text": "proptest histories against wit_bindgen::rt allocation entry points with a tracking global allocator"},
     {"name": "corepbt", "path": "harness/corepbt", "serves_properties": ["C17", "C25", "C26", "C27", "C28", "C34"], "kind_free_text": "proptest harnesses over public items of wit-bindgen-core / wit-bindgen rt / wit-bindgen-test"},
 ]
